@@ -128,3 +128,17 @@ PROPS["C02"] = {
         {"bin": "c02", "variant": "sse2", "tag": ".sse2", "quick": {"cases": 0, "workers": 16, "budget": 300}, "thorough": {"cases": 0, "workers": 16, "budget": 1800}},
     ],
 }
+
+PROPS["C08"] = {
+    "level": "exploration",
+    "engine": "rapidcheck + bounded enumeration",
+    "technique": "model-based testing of SFM_RDWR call histories (in-memory reference model), bounded-exhaustive to depth 3/4 plus rapidcheck-generated longer histories",
+    "rule": "every sample-granular catalogue entry whose SFM_RDWR open succeeds (probed at start) x channels x start state {empty, pre-populated 1/7/100/1000 frames} x history of <= 30 ops over {write k via the 8 typed entry points, read k, seek (SET/CUR/END x {plain, |SFM_READ, |SFM_WRITE}) to {0, random, len, len-1, rpos, wpos, beyond len, negative}, SFC_FILE_TRUNCATE, SFC_UPDATE_HEADER_NOW, close + re-open RDWR}, on real files; "
+            "plus every history of depth <= 3 (quick) / 4 (thorough) over a 12-letter concrete alphabet on 7 representative formats x 2 start states; after every op the positions (SEEK_CUR|SFM_READ, SEEK_CUR|SFM_WRITE) and the frame count equal the model, every read equals the model's frames (gap frames are wildcards); a fresh read-only open at the end sees exactly the model; non-trivial = a mode-qualified seek, a truncate, or a write at a position other than where the last read ended; distinct = hash of (format, channels, start, ops)",
+    "assumptions": BASE_ASSUME + ["values written are integers that every API type represents exactly with NORM_FLOAT/NORM_DOUBLE off (G.711 through the integer entry points only), so reads through any type are comparable bit for bit",
+                                  "plain SEEK_CUR is generated only when both pointers are equal, and never with offset 0 (in RDWR that performs a real seek to the write pointer; the docs do not say which pointer it is relative to)",
+                                  "1-byte encodings in containers that pad odd sizes are generated with even channel counts only (the pad byte is a listed finding of C05/C06)"],
+    "stages": [
+        {"bin": "c08", "quick": {"cases": 4000, "workers": 16, "budget": 200}, "thorough": {"cases": 30000, "workers": 16, "budget": 1500}},
+    ],
+}
